@@ -25,7 +25,11 @@ def dtype_to_tensor_type(dtype_like: npt.DTypeLike) -> int:
     if dtype_like is None:  # numpy would default to float64
         raise TypeError(err_msg)
     # normalize in the case of aliases like ``long`` which are missing in the lookup
-    dtype = np.dtype(np.dtype(dtype_like).type)
+    try:
+        dtype = np.dtype(np.dtype(dtype_like).type)
+    except ValueError:
+        # numpy reports a malformed dtype specification such as ``(int, -1)`` with ValueError
+        raise TypeError(err_msg)
     if dtype == np.dtype(object):
         raise TypeError(
             "`np.dtype('object')` is not supported as a tensor element type. "
